@@ -1,6 +1,7 @@
 """C03 - adding, removing or replacing a child leaves everything else untouched."""
 from __future__ import annotations
 
+import itertools
 from typing import Any, Optional
 
 from autobean_refactor.models import base
@@ -270,6 +271,25 @@ def _assign_then_view_edit():
             yield {**case, 'ops': case['ops'][:2] + [{'f': 'view', 'cls': a['cls'], 'mi': donor, 'prop': v[0], **last}]}
 
 
+def _retype_then_view_edit():
+    """A raw list whose typed views exist; one item replaced through the raw list by a node of ANOTHER view type (a tag by a link, a string by an
+    account ...), by index or by slice; then one edit through each typed view. The views must have followed the change of type (round 9, seed C03-i)."""
+    hosts = [('Note', 'raw_tags_links', '2000-01-01 note Assets:A "x" #a ^l #b ^m\n', {'Tag': {'k': 'LINK', 't': '^z'}, 'Link': {'k': 'TAG', 't': '#z'}},
+              [('tags', 'zz'), ('links', 'yy')], 4),
+             ('Transaction', 'raw_tags_links', '2000-01-01 * "x" #a ^l #b\n  Assets:A  1 USD\n', {'Tag': {'k': 'LINK', 't': '^z'}, 'Link': {'k': 'TAG', 't': '#z'}},
+              [('tags', 'zz'), ('links', 'yy')], 3)]
+    kinds = {'Note': ['Tag', 'Link', 'Tag', 'Link'], 'Transaction': ['Tag', 'Link', 'Tag']}
+    for cls, prop, text, swap, views, n in hosts:
+        for i in range(n):
+            donor = swap[kinds[cls][i]]
+            for first in ({'op': 'set', 'i': i, 'donors': [donor]}, {'op': 'set', 'i': i - n, 'donors': [donor]},
+                          {'op': 'setslice', 'i': i, 'j': i + 1, 'k': None, 'donors': [donor]}):
+                for (vname, val), j in itertools.product(views, (0, 1, -1)):
+                    for last in ({'op': 'set', 'i': j, 'vals': [{'vt': 'str', 'v': val}]}, {'op': 'pop', 'i': j, 'vals': []}, {'op': 'del', 'i': j, 'vals': []}):
+                        yield {'dirs': [[['X', text]]], 'prime': True,
+                               'ops': [{'f': 'list', 'cls': cls, 'mi': 0, 'prop': prop, **first}, {'f': 'view', 'cls': cls, 'mi': 0, 'prop': vname, **last}]}
+
+
 def jobs(tier: str) -> list[Job]:
     from vf.props import c10
     return [Job('programs', 'hyp', lambda: _build(tier), 3000 if tier == 'quick' else 100000),
@@ -279,4 +299,5 @@ def jobs(tier: str) -> list[Job]:
             Job('list-sweep', 'enum', sweeps.list_sweep, exhaustive=True),
             Job('slot-sweep', 'enum', sweeps.slot_sweep, exhaustive=True),
             Job('insert-then-edit', 'enum', sweeps.insert_then_edit, exhaustive=True),
-            Job('assign-then-view-edit', 'enum', _assign_then_view_edit, exhaustive=True)]
+            Job('assign-then-view-edit', 'enum', _assign_then_view_edit, exhaustive=True),
+            Job('retype-then-view-edit', 'enum', _retype_then_view_edit, exhaustive=True)]
